@@ -172,7 +172,7 @@ def run_merge(ctx, prop):
         victim["expect_raw"] = dict(victim["expect_raw"], corrupted=1)
     inexact = [c for c in conc if c["expect_raw"] is None and c["form"] != "lua"]
     nproc = ctx.pick(16, 64) if prop == "C32" else ctx.pick(4, 16)
-    cap = 12000  # thorough: a seeded sample of the order-sensitive cases goes to the extra processes
+    cap = ctx.pick(10 ** 9, 6000)  # thorough: a seeded sample of the order-sensitive cases goes to the extra processes
     if len(inexact) > cap:
         inexact = random.Random(ctx.seed).sample(inexact, cap)
     runs = run_harness(ctx, conc, 2, "merge_all")
